@@ -230,6 +230,8 @@ def mk_cmp(pyop: str, a, b):
         r = _const_cmp(op, a[1], b[1])
         if r is not None:
             return C(bool(r))
+    if op == 'is' and b == NONE and tag(a) in ('dict', 'list', 'tuple', 'set', 'new', 'lc', 'fstr', 'lam'):
+        return FALSE
     if op == 'in' and is_const(a) and tag(b) in ('list', 'tuple', 'set') \
             and all(is_const(x) for x in b[1]):
         return C(a[1] in [x[1] for x in b[1]])
@@ -361,6 +363,10 @@ def mk_sub(base, idx):
         return ('prm', (idx[1],))
     if tg == 'prm' and is_const(idx):
         return ('prm', base[1] + (idx[1],))
+    if tg == 'dict' and is_const(idx):
+        for k, v in base[1]:
+            if k == idx:
+                return v
     if is_const(idx) and isinstance(idx[1], str):
         if tg == 'rows' and not _is_multi(base[3]):
             return ('cell', base[1], (base[2], base[3]), idx[1])
